@@ -258,6 +258,19 @@ func (w *World) exec(e Event) Result {
 	case "Unjail":
 		i := w.ValIndex(e.V)
 		return w.atomic(func(ctx sdk.Context) error { return sk.Unjail(ctx, w.Cons[i]) })
+	case "Jail":
+		// jailing without a slash (downtime with a zero slash fraction): the validator leaves the bonded set at the end of the block
+		i := w.ValIndex(e.V)
+		return w.atomic(func(ctx sdk.Context) error {
+			val, err := sk.GetValidator(ctx, w.Vals[i])
+			if err != nil {
+				return err
+			}
+			if val.Jailed {
+				return fmt.Errorf("already jailed")
+			}
+			return sk.Jail(ctx, w.Cons[i])
+		})
 
 	case "NativeDelegate":
 		u := w.acct(e.D)
